@@ -332,6 +332,19 @@ def x6(ctx):
                   "Extractor::extract puts %s into the children list: a term that was not extracted for this child's own invocation. Two children that invoke the same class with the same slot SET but a different slot MAP (c[x,y] and c[y,x]) would share one term, and the extracted term is then not in the requested class" % role_str(sr)[:100],
                   where_of(sub, bb) if bb is not None else where_of(sub))
     ctx.floor("child terms of the extracted node", n, 1)
+    # ... and in the order of the node's child positions: appended one by one while walking applied_id_occurrences front to back
+    for sub in b.all_bodies():
+        for c in sub.calls:
+            if sub.blocks[c.bb]["cleanup"] or not c.callee or not c.args:
+                continue
+            pl = mir.op_place(c.args[0])
+            ty = sub.local_ty(pl["l"]) if pl is not None else ""
+            if c.callee.name in ("insert", "push_front", "swap", "reverse", "sort", "sort_by", "sort_by_key", "dedup", "retain", "truncate", "swap_remove", "remove") and "RecExpr" in ty and "Vec" in ty:
+                ctx.bad("children-in-order:" + c.callee.name, "Extractor::extract rearranges the children list with %s: the i-th child term must belong to the i-th child position of the node" % c.callee.name, where_of(sub, c.bb))
+    for l in C.iterator_loops(b):
+        bad = sorted({x[1] for x in role_walk(l[1]) if isinstance(x, tuple) and x[0] == "call" and x[1] in ("rev", "skip", "take", "filter", "step_by")})
+        if role_mentions_call(l[1], "applied_id_occurrences"):
+            ctx.check(not bad, "children-in-order:loop", "the children are walked front to back, all of them", "Extractor::extract walks the node's children through %s" % bad, where_of(b, l[0]))
 
 
 RULES.append(x6)
@@ -344,3 +357,26 @@ def x7(ctx):
 
 
 RULES.append(x7)
+
+
+@rule("X8", doc="an e-node that may carry redundant slots is renamed by a class invocation's map only with the variant that invents names for the slots the map does not cover (apply_slotmap_fresh) — in class_nf and in extract")
+def x8(ctx):
+    crate = ctx.lib()
+    hosts = [b for b in crate.fns() if (b.name == "class_nf" and "EGraph" in (b.impl_self or "")) or ((b.file or "").endswith("extract/mod.rs") and b.name == "extract" and "Extractor" in (b.impl_self or ""))]
+    C.need("class_nf / Extractor::extract", [b.id for b in hosts], 2)
+    n = 0
+    for b0 in hosts:
+        b = mir.inline_view(crate, b0, keep=("lookup", "find_applied_id", "apply_slotmap_fresh", "apply_slotmap", "apply_slotmap_partial"))
+        for c in b.calls:
+            if b.blocks[c.bb]["cleanup"] or not c.callee or not c.callee.name.startswith("apply_slotmap") or len(c.args) < 2:
+                continue
+            m = b.role_of_operand(c.args[1])
+            if not (role_mentions_call(m, "lookup") or role_mentions_call(m, "find_applied_id") or role_mentions_call(m, "lookup_internal")):
+                continue
+            n += 1
+            ctx.check(c.callee.name == "apply_slotmap_fresh", "renamed-with-fresh-fill:" + C.fkey(b0), "%s renames the node with apply_slotmap_fresh" % C.short(b0.id),
+                      "%s renames an e-node by a class invocation's map with %s: the map covers only the class's parameter slots, a redundant slot of the node is not in it — the call panics ('index missing') or leaves the stored name in place, and extraction fails for every class that has such a node" % (C.short(b0.id), c.callee.name), where_of(b, c.bb))
+    ctx.floor("renamings by a class invocation's map in the extraction code", n, 2)
+
+
+RULES.append(x8)
